@@ -1,0 +1,14 @@
+//go:build !verif
+
+package syncer
+
+// verifEvent is a verification hook; it does nothing unless the package is
+// built with -tags verif. The helpers below compute its arguments and are
+// equally inert.
+func verifEvent(kind string, a, b int) {}
+
+func (s *Syncer) verifID() int            { return 0 }
+func (p *Peer) verifID() int              { return 0 }
+func (s *Syncer) verifSub(key string) int { return 0 }
+func (s *Syncer) verifPeers(in bool) int  { return 0 }
+func verifDir(n int, inbound bool) int    { return 0 }
